@@ -25,6 +25,9 @@
 // 16-bit brute-force tables, wherever it is defined and representable; and agreement of the
 // `long` and `long long` overloads.
 //
+//   pb <off> <hex>   tlx::popcount(const void*, size_t) on the bytes, placed <off> bytes behind an
+//                    8-aligned address in an exactly sized heap block -> number of one bits
+//
 // Aggregate:  agg <bank d|i> new r | add r v | plus r a b | pluseq r a | get r | copy r a
 //   answer: count mean nvar min max as %.17g plus `scale=` (sum of squares of the reference
 //   values, used for the tolerance of the comparison with the exact model).
@@ -556,6 +559,33 @@ static void do_agg(Bank<T>& B, const std::vector<std::string>& t, const std::str
     agg_report(B, r, line);
 }
 
+// popcount(const void*, size_t):  pb <misalignment 0..7> <hex bytes or ->
+static void do_pb(const std::vector<std::string>& t) {
+    if (t.size() != 3) { vh::answer("bad-op"); return; }
+    int off;
+    try { off = std::stoi(t[1]); } catch (...) { vh::answer("bad-op"); return; }
+    std::string hex = t[2] == "-" ? std::string() : t[2];
+    if (off < 0 || off > 7 || hex.size() % 2) { vh::answer("bad-op"); return; }
+    std::vector<unsigned char> bytes;
+    for (size_t i = 0; i < hex.size(); i += 2) {
+        auto val = [](char c) { return (c >= '0' && c <= '9') ? c - '0' : (c >= 'a' && c <= 'f') ? c - 'a' + 10 : -1; };
+        int hi = val(hex[i]), lo = val(hex[i + 1]);
+        if (hi < 0 || lo < 0) { vh::answer("bad-op"); return; }
+        bytes.push_back(static_cast<unsigned char>(hi * 16 + lo));
+    }
+    // exactly sized heap block (ASan catches any over-read), 8-aligned base + requested offset
+    size_t n = bytes.size();
+    unsigned char* block = static_cast<unsigned char*>(aligned_alloc(8, ((n + static_cast<size_t>(off) + 7) / 8 + 1) * 8));
+    unsigned char* p = block + off;
+    if (n) memcpy(p, bytes.data(), n);
+    size_t want = 0;
+    for (unsigned char b : bytes) want += t_pop16[b];
+    size_t got = tlx::popcount(static_cast<const void*>(p), n);
+    free(block);
+    vh::answer(std::to_string(got));
+    if (got != want) vh::viol("popcount(data,size) returns " + std::to_string(got) + " but the bytes have " + std::to_string(want) + " one bits witness: pb " + t[1] + " " + t[2]);
+}
+
 int main(int argc, char** argv) {
     init_tables();
     std::string line;
@@ -569,6 +599,7 @@ int main(int argc, char** argv) {
             else if (t.size() >= 2 && t[1] == "i") do_agg(bank_i, t, line, true);
             else vh::answer("bad-op");
         }
+        else if (t[0] == "pb") do_pb(t);
         else do_int(t);
     }
     return 0;
